@@ -93,4 +93,29 @@ def modelChain (m : Mol) : Option (List Nat) :=
     some ((List.range k).filterMap (fun i => (List.range x.length).find? (fun a => x.getD a 0 == i + 1)))
   | _ => none
 
+/-! ### the reactor's anchor for position-less modifications -/
+
+/-- Model of `self.ring_c` (reactor.py, computed before `check_for_anhydro`): the smallest number among the carbons that lie in the
+    main ring only; with no such carbon 1 (`(monomer, lactole) in ketoses2` pairs an object with the lactole and is constantly
+    false in the pinned code). -/
+def ringCOf (v : View) (x : List Nat) : Nat :=
+  match ((List.range v.atoms.length).filter (fun i => (v.at i).z == 6 && (v.at i).ring == 1)).map (fun i => x.getD i 0) with
+  | [] => 1
+  | n :: ns => ns.foldl min n
+
+/-- Spec: the number of the anomeric carbon in the chemistry-level main chain (1 for aldoses, 2 for 2-ketoses) -/
+def specAnchor (m : Mol) : Option Nat :=
+  let ring := ringAtoms m
+  match ring.filter (isO m) with
+  | [o] =>
+    match ring.filter (fun c => isC m c && (nbrs m c).contains o && ((nbrs m c).filter (fun x => isO m x)).length == 2) with
+    | [an] => (specChain m).map (fun ch => ch.idxOf an + 1)
+    | _ => none
+  | _ => none
+
+def modelAnchor (m : Mol) : Option Nat :=
+  match enumerate (viewOf m) [] with
+  | .ok x => some (ringCOf (viewOf m) x)
+  | _ => none
+
 end Gly.EnumC
